@@ -64,7 +64,7 @@ def explore(run, hyps=(), max_paths=3000, feas_timeout_ms=1500, time_budget_s=No
     c = Ctx(hyps, feas_timeout_ms=feas_timeout_ms, max_paths=max_paths)
     prev = Ctx.cur
     Ctx.cur = c
-    paths, unsupported = [], []
+    paths, unsupported, dead = [], [], []
     c.work.append([])
     complete = True
     t0 = time.time()
@@ -78,9 +78,12 @@ def explore(run, hyps=(), max_paths=3000, feas_timeout_ms=1500, time_budget_s=No
                 out = run()
                 paths.append(PathResult(list(c.pc), list(c.lazy), out, None, list(c.oblig)))
             except Infeasible:
-                # obligations recorded before the path died still count (e.g. division by literal 0)
+                # obligations recorded before the path died still count: a path can only die after an unprovable
+                # safety obligation was assumed (e.g. division by something that is zero on this path)
                 if c.oblig and any(z3.is_false(o.goal) for o in c.oblig):
                     paths.append(PathResult(list(c.pc), list(c.lazy), None, ZeroDivisionError("division by zero"), list(c.oblig)))
+                elif c.oblig:
+                    dead.append(PathResult(list(c.pc), list(c.lazy), None, Infeasible(), list(c.oblig)))
                 continue
             except UNSUPPORTED_EXC as e:
                 unsupported.append(f"{type(e).__name__}: {e}")
@@ -94,7 +97,9 @@ def explore(run, hyps=(), max_paths=3000, feas_timeout_ms=1500, time_budget_s=No
                 paths.append(PathResult(list(c.pc), list(c.lazy), None, e, list(c.oblig)))
     finally:
         Ctx.cur = prev
-    return Exploration(c, paths, complete, unsupported)
+    ex = Exploration(c, paths, complete, unsupported)
+    ex.dead = dead
+    return ex
 
 
 # ----------------------------------------------------------------------------- rational normal form
